@@ -42,6 +42,8 @@ inductive Outcome (α ρ : Type)
   | teardown (t : Teardown)
   | panicOnClone
   | exit (failure : Bool) (lines : List MockError)
+  | unwound (log : List (LogEntry α)) (out : CallOutcome ρ) (drops : List Teardown)
+  | consumed (log : List (LogEntry α)) (out : CallOutcome ρ) (drop : Teardown)
   | badEvent
   deriving Repr
 
@@ -101,6 +103,14 @@ def dropInst (w : World α ρ) (i : Nat) (t : Nat) (threadPanicking : Bool) : Wo
       (w.free i, r)
     else (w.free i, .ok)
 
+/-- drop several instances one after the other on a panicking thread -/
+def dropAllUnwinding (w : World α ρ) (t : Nat) : List Nat → World α ρ × List Teardown
+  | [] => (w, [])
+  | i :: is =>
+    let (w, r) := dropInst w i t true
+    let (w, rs) := dropAllUnwinding w t is
+    (w, r :: rs)
+
 inductive Event (α ρ : Type)
   | build (i : Nat) (t : Nat) (fb : Fallback) (c : ClauseTree α ρ)
   | call (i t : Nat) (m : MethodInfo) (a : α)
@@ -109,6 +119,12 @@ inductive Event (α ρ : Type)
   | verify (i t : Nat)
   | noVerify (i t : Nat)
   | report (i t : Nat)
+  /-- a call on `i` inside a scope that then unwinds (from the call's own panic or a later user panic):
+      `i` and the instances `also` are dropped while the thread is panicking -/
+  | unwindCall (i t : Nat) (m : MethodInfo) (a : α) (also : List Nat)
+  /-- a by-value provided method: the instance is moved in, wrapped by `to_delegator`, unwrapped and
+      dropped after the call (normally, or while unwinding if the call panicked) -/
+  | consume (i t : Nat) (m : MethodInfo) (a : α)
 
 def fuelDefault : Nat := 64
 
@@ -176,6 +192,35 @@ def step (env : Env α ρ) (w : World α ρ) : Event α ρ → World α ρ × Ou
       | .ok => (w.free i, .exit false [])
       | .errs es => (w.free i, .exit true es)
       | r => (w.free i, .teardown r)
+  | .unwindCall i t m a also =>
+    match w.inst? i with
+    | none => (w, .badEvent)
+    | some x =>
+      if !x.alive then (w, .badEvent) else
+      match w.mocks[x.sh]? with
+      | none => (w, .badEvent)
+      | some ms =>
+        let r := callMethod env fuelDefault 0 ms.shared m a
+        let w := w.setShared x.sh r.shared
+        let w := w.setInst i { x with helper := max x.helper r.helperDepth, parked := x.parked + r.parked }
+        -- locals are dropped in reverse declaration order: the called instance first, then `also`
+        let (w, rs) := dropAllUnwinding w t (i :: also)
+        (w, .unwound r.log r.out rs)
+  | .consume i t m a =>
+    match w.inst? i with
+    | none => (w, .badEvent)
+    | some x =>
+      if !x.alive then (w, .badEvent) else
+      match w.mocks[x.sh]? with
+      | none => (w, .badEvent)
+      | some ms =>
+        let r := callMethod env fuelDefault 0 ms.shared m a
+        let w := w.setShared x.sh r.shared
+        -- `to_delegator(self)` wraps the instance itself: no helper clone is created
+        let w := w.setInst i { x with parked := x.parked + r.parked }
+        let panicked := match r.out with | .ret _ => false | _ => true
+        let (w, d) := dropInst w i t panicked
+        (w, .consumed r.log r.out d)
 
 def run (env : Env α ρ) : World α ρ → List (Event α ρ) → World α ρ × List (Outcome α ρ)
   | w, [] => (w, [])
